@@ -710,8 +710,9 @@ def finish(prop, tier, seed, results, meta, wall, extra_coverage=None, extra_err
         "wall_s": round(wall, 2),
         "violations": len(violations),
     }
-    os.makedirs(os.path.join(HERE, "evidence"), exist_ok=True)
-    with open(os.path.join(HERE, "evidence", "%s.json" % prop), "w") as f:
+    evdir = os.environ.get("PSX_EVIDENCE_DIR") or os.path.join(HERE, "evidence")          # redirected only when a scratch tree is evaluated (dev/seedtest.py)
+    os.makedirs(evdir, exist_ok=True)
+    with open(os.path.join(evdir, "%s.json" % prop), "w") as f:
         json.dump(ev, f, indent=1, sort_keys=True, default=str)
     for kid, kv in sorted(known_hits.items()):
         print("KNOWN-FINDING: property=%s %s [%s] replay=%s" % (prop, kv.get("what", kid), kid, kv.get("replay")))
